@@ -400,7 +400,7 @@ package mcp
 //@   && (forall k string :: {inDom(s.features, k)} k in s.features ==> has(s.sortedKeys, k))
 //@   && (forall i int :: {absElem(s.sortedKeys, i)} off(s.sortedKeys) <= i && i < off(s.sortedKeys) + len(s.sortedKeys) ==> absElem(s.sortedKeys, i) in s.features)))
 
-//@ func (*featureSet[T]).add [C17]
+//@ func (*featureSet[T]).add [C17, C18]
 //@   callee s.uniqueID: pure
 //@   callee s.uniqueID: ensures result == uidOf($0)
 //@   requires s != nil && s.features != nil
@@ -416,7 +416,7 @@ package mcp
 //@        ==> (exists i int :: {absElem(fs, i)} off(fs) <= i && i < off(fs) + $idx && uidOf(absElem(fs, i)) == k)
 //@   loop 1: invariant @map-same s.features == old(s.features) && s.features != nil
 
-//@ func (*featureSet[T]).remove [C17]
+//@ func (*featureSet[T]).remove [C17, C18]
 //@   requires fsRep(s)
 //@   modifies mapOf(s.features), s.sortedKeys
 //@   ensures @rep fsRep(s)
